@@ -186,6 +186,8 @@ class Collector:
         self.keep_samples = keep_samples
         self.timeouts = 0
         self.timeout_cases = []
+        self.bulk_nontrivial = 0
+        self.known = load_known()
 
     def __call__(self, case):
         out = run_check(self.mod, case)
@@ -211,13 +213,39 @@ class Collector:
                     self.samples.append(s)
         for key, detail in out.failures:
             sz = case_size(case)
-            old = self.failures.get(key)
+            # bucket by (root-cause key, matching open known finding or None): a listed finding must never hide a
+            # different violation that happens to share its key
+            ent = match_known(self.mod, self.known, case, key, detail)
+            bucket = key + '\x00' + (ent.get('id', 'known') if ent is not None else '')
+            old = self.failures.get(bucket)
             if old is None:
-                self.failures[key] = [sz, case, detail, 1]
+                self.failures[bucket] = [sz, case, detail, 1]
             else:
                 old[3] += 1
                 if sz < old[0]:
                     old[0], old[1], old[2] = sz, case, detail
+
+    def fast(self, case):
+        """For exhaustively enumerated spaces (each case visited exactly once, so distinct by construction): no
+        watchdog, no hashing; anything unusual falls back to the normal path."""
+        from . import common
+        common.LOOPS.reset()
+        try:
+            out = self.mod.check(case)
+        except (GtError, Bad):
+            return self(case)
+        if out.failures or out.skipped:
+            return self(case)
+        self.evaluations += 1
+        for lab in out.labels:
+            self.labels[lab] += 1
+        if out.nontrivial:
+            self.bulk_nontrivial += 1
+            if len(self.samples) < self.keep_samples:
+                s = {'case': case}
+                if out.info is not None:
+                    s['info'] = out.info
+                self.samples.append(s)
 
     def result(self):
         return {
@@ -229,6 +257,7 @@ class Collector:
             'samples': self.samples,
             'timeouts': self.timeouts,
             'timeout_cases': self.timeout_cases,
+            'bulk_nontrivial': self.bulk_nontrivial,
         }
 
 
@@ -236,6 +265,7 @@ def run_check(mod, case):
     """Runs mod.check(case) under a watchdog. Returns Outcome or 'timeout'. Oracle exceptions -> HarnessError."""
     from . import common
     common.WIDEN.reset()
+    common.LOOPS.reset()
     signal.signal(signal.SIGALRM, _alarm)
     signal.alarm(CASE_TIMEOUT)
     try:
@@ -525,7 +555,9 @@ def run_property(pid, tier, seed, replay=None):
                 results.append(res)
 
     timeout_cases = []
+    bulk_nontrivial = 0
     for res in results:
+        bulk_nontrivial += res.get('bulk_nontrivial', 0)
         timeout_cases.extend(res.get('timeout_cases', []))
         total['evaluations'] += res['evaluations']
         total['timeouts'] += res['timeouts']
@@ -548,8 +580,9 @@ def run_property(pid, tier, seed, replay=None):
     budget = 300 if tier == 'quick' else 3000
     violations = []
     known_hits = []
-    for key in sorted(merged_fail):
-        sz, case, detail, cnt = merged_fail[key]
+    for bucket in sorted(merged_fail):
+        sz, case, detail, cnt = merged_fail[bucket]
+        key = bucket.split('\x00')[0]
         ent = match_known(mod, known, case, key, detail)
         if ent is not None:
             known_hits.append((ent, key, cnt))
@@ -584,7 +617,7 @@ def run_property(pid, tier, seed, replay=None):
     wall = time.time() - t0
     coverage = {
         'evaluations': total['evaluations'],
-        'distinct_nontrivial': len(nontrivial),
+        'distinct_nontrivial': len(nontrivial) + bulk_nontrivial,
         'rule': mod.RULE,
         'samples': samples,
         'class_distribution': dict(sorted(labels.items())),
@@ -601,7 +634,7 @@ def run_property(pid, tier, seed, replay=None):
     if extra:
         coverage.update(extra(tier))
     write_evidence(mod, tier, seed, coverage, wall, len(violations))
-    sys.stdout.write(f"{mod.ID} {tier} seed={seed}: {total['evaluations']} cases, {len(nontrivial)} distinct non-trivial, "
+    sys.stdout.write(f"{mod.ID} {tier} seed={seed}: {total['evaluations']} cases, {len(nontrivial) + bulk_nontrivial} distinct non-trivial, "
                      f"{len(violations)} violation(s), {len(printed)} known finding(s), "
                      f"{total['timeouts']} inconclusive, {wall:.1f}s\n")
     if total['evaluations'] == 0:
@@ -614,6 +647,7 @@ def run_replay(mod, known, path):
     with open(path) as f:
         obj = json.load(f)
     case = obj['case'] if isinstance(obj, dict) and 'case' in obj and 'property' in obj else obj
+    _quiet_worker()
     out = run_check(mod, case)
     if out == 'timeout':
         sys.stdout.write(f"INCONCLUSIVE property={mod.ID} replay={path} (watchdog)\n")
